@@ -72,7 +72,7 @@ def run_one(variant, spec, rg, stats, case1, program):
     else:
         ff = gp_run.parsed_ff(variant, spec)
         try:
-            mm, _ = H.run_processors(ff, H.build_resgraph(rg))
+            mm, _ = H.run_processors(ff, H.build_resgraph(rg, key_perm=case1.get("keys")))
         except Exception as exc:  # noqa
             return [crash_violation(exc, case1, assertion="pipeline-accepts-valid-input")], False
         obs = H.mol_digest(mm.molecule)
@@ -117,13 +117,18 @@ def run_case(case):
     for rg in gp_cases.graphs_for(variant, case["n"], case["tier"], starts=(1,)):
         used = set(rg["resnames"])
         for program in ((False, True) if case["n"] <= 2 else (False,)):
-            case1 = {"variant": variant, "rg": rg, "single": True, "program": program}
-            v, nt = run_one(variant, spec, rg, stats, case1, program)
-            evals += 1
-            if len(viols) < 20:
-                viols += v
-            if nt:
-                keys.append(json.dumps([variant["links"], variant["nrexcl"], rg, program], sort_keys=True))
+            # node keys of the residue graph: 0..n-1, and (processor level, n <= 3) counted from 1 / from 7 with a gap
+            for kset in ([None] if program or case["n"] > 3 else [None, [1 + i for i in range(rg["n"])], [7 + 2 * i for i in range(rg["n"])]]):
+                case1 = {"variant": variant, "rg": rg, "single": True, "program": program, "keys": kset}
+                v, nt = run_one(variant, spec, rg, stats, case1, program)
+                evals += 1
+                if len(viols) < 20:
+                    for x in v:
+                        if kset:
+                            x["tags"] = list(x.get("tags", [])) + ["node-keys-not-from-0"]
+                    viols += v
+                if nt:
+                    keys.append(json.dumps([variant["links"], variant["nrexcl"], rg, program, kset], sort_keys=True))
     return dict(evals=evals, keys=keys, violations=viols, stats=stats,
                 sample={"links": variant["links"], "nrexcl": variant["nrexcl"], "n": case["n"], "inputs": evals})
 
